@@ -238,8 +238,13 @@ class Ctx:
             "coverage": cov, "assumptions": self.assumptions,
             "wall_s": round(time.time() - self.t0, 2), "violations": len(self.violations),
         }
-        os.makedirs(EVIDENCE, exist_ok=True)
-        json.dump(ev, open(os.path.join(EVIDENCE, self.pid + ".json"), "w"), indent=1, sort_keys=True)
+        if self.replay:
+            # a --replay run re-executes ONE stored behaviour: it must not replace the evidence of the tier run
+            os.makedirs(self.outdir, exist_ok=True)
+            json.dump(ev, open(os.path.join(self.outdir, "replay-evidence.json"), "w"), indent=1, sort_keys=True)
+        else:
+            os.makedirs(EVIDENCE, exist_ok=True)
+            json.dump(ev, open(os.path.join(EVIDENCE, self.pid + ".json"), "w"), indent=1, sort_keys=True)
         printed = set()
         for k in self.known_seen:
             line = "KNOWN-FINDING: property=%s %s" % (self.pid, k["known"].get("what", k["what"]))
